@@ -546,7 +546,7 @@ class Interp:
         if op == 'fadd': return a + b
         if op == 'fsub': return a - b
         if op == 'fmul': return a * b
-        st.events.append(('div', b, len(st.pc)))
+        st.events.append(('div', b, len(st.pc), a))
         return a / b
     def ibin(s, op, a, b, w, I, st):
         M = (1 << w) - 1
